@@ -146,3 +146,134 @@ fn k_fp_consts() {
   pm1[0] = 0xa2; pm1[1] = 0x30; pm1[16] = 1;
   assert!(m1.0 == pm1);
 }
+
+// ---------------------------------------------------------------------------------------------
+// Bounded stand-ins for the iterator-based functions Verus cannot take (never counted as proved)
+
+/// cheap injective stand-in for to_repr (T-field: to_repr is injective on canonical residues); keeps
+/// the Montgomery reduction out of the SAT problem where only DISTINCTNESS of encodings matters
+fn stub_to_repr(f: &Fp) -> FpRepr {
+  let mut b = [0u8; 24];
+  let mut i = 0;
+  while i < 3 {
+    let w = f.0[i].to_le_bytes();
+    let mut j = 0;
+    while j < 8 {
+      b[8 * i + j] = w[j];
+      j += 1;
+    }
+    i += 1;
+  }
+  FpRepr(b)
+}
+
+static mut SEEN_LEN: usize = usize::MAX;
+static mut SEEN_X: [[u64; 3]; 4] = [[0; 3]; 4];
+/// records what `interpolate` is handed and returns a fixed answer
+fn stub_interpolate(shares: &[Share]) -> Result<Vec<u8>, &'static str> {
+  unsafe {
+    SEEN_LEN = shares.len();
+    let mut i = 0;
+    while i < shares.len() && i < 4 {
+      SEEN_X[i] = shares[i].x.0;
+      i += 1;
+    }
+  }
+  if shares.is_empty() { Err("Need at least one share to interpolate") } else { Ok(Vec::new()) }
+}
+
+fn small_fp() -> Fp {
+  // distinctness logic does not depend on the magnitude: 2-bit limbs keep BTreeSet<Vec<u8>> tractable
+  let a: u8 = kani::any();
+  kani::assume(a < 4);
+  Fp([a as u64, 0, 0])
+}
+
+/// Sharks::recover = selection logic (C06/C02/C09): for up to 3 shares with symbolic x (values 0..3),
+/// symbolic y-lengths 0..1 and symbolic threshold 0..4:
+///   unequal y-lengths => Err;  threshold 0 or fewer distinct x than threshold => Err;
+///   otherwise interpolate receives exactly the first `threshold` distinct-x shares in
+///   first-occurrence order; never panics.
+#[kani::proof]
+#[kani::unwind(5)]
+#[kani::stub(interpolate, stub_interpolate)]
+#[kani::stub(<Fp as crate::ff::PrimeField>::to_repr, stub_to_repr)]
+fn k_recover_selection() {
+  let n: usize = kani::any();
+  kani::assume(n <= 3);
+  let t: u32 = kani::any();
+  kani::assume(t <= 4);
+  let mut shares: Vec<Share> = Vec::new();
+  let mut xs = [[0u64; 3]; 3];
+  let mut ls = [0usize; 3];
+  let mut i = 0;
+  while i < n {
+    let x = small_fp();
+    let l: bool = kani::any();
+    let y = if l { vec![Fp([1, 0, 0])] } else { Vec::new() };
+    xs[i] = x.0;
+    ls[i] = y.len();
+    shares.push(Share { x, y });
+    i += 1;
+  }
+  unsafe { SEEN_LEN = usize::MAX; }
+  let sharks = crate::Sharks(t);
+  let r = sharks.recover(&shares);
+  // independent reference: first occurrences
+  let mut lens_ok = true;
+  let mut dx = [[0u64; 3]; 3];
+  let mut dn = 0usize;
+  let mut i = 0;
+  while i < n {
+    if ls[i] != ls[0] { lens_ok = false; }
+    let mut dup = false;
+    let mut j = 0;
+    while j < i {
+      if xs[j] == xs[i] { dup = true; }
+      j += 1;
+    }
+    if !dup { dx[dn] = xs[i]; dn += 1; }
+    i += 1;
+  }
+  let ok = lens_ok && t >= 1 && dn >= t as usize;
+  assert!(r.is_ok() == ok);
+  if ok {
+    unsafe {
+      assert!(SEEN_LEN == t as usize);
+      let mut k = 0;
+      while k < t as usize && k < 3 {
+        assert!(SEEN_X[k] == dx[k]);
+        k += 1;
+      }
+    }
+  }
+}
+
+/// Vec<u8>::from(&Share) = x.to_repr() ++ y[0].to_repr() ++ ... (structure only; to_repr itself is
+/// T-field), for y of length 0..2
+#[kani::proof]
+#[kani::unwind(4)]
+#[kani::stub(<Fp as crate::ff::PrimeField>::to_repr, stub_to_repr)]
+fn k_vec_from_share() {
+  let n: usize = kani::any();
+  kani::assume(n <= 2);
+  let x = any_fp();
+  let y0 = any_fp();
+  let y1 = any_fp();
+  let mut y = Vec::new();
+  if n >= 1 { y.push(y0); }
+  if n >= 2 { y.push(y1); }
+  let s = Share { x, y };
+  let v: Vec<u8> = Vec::from(&s);
+  assert!(v.len() == 24 * (n + 1));
+  let ex = stub_to_repr(&x).0;
+  let e0 = stub_to_repr(&y0).0;
+  let e1 = stub_to_repr(&y1).0;
+  let mut i = 0;
+  while i < 24 {
+    assert!(v[i] == ex[i]);
+    if n >= 1 { assert!(v[24 + i] == e0[i]); }
+    if n >= 2 { assert!(v[48 + i] == e1[i]); }
+    i += 1;
+  }
+}
